@@ -496,7 +496,6 @@ func VerifC07Register() {
 		a, b := &vZN1{}, &vZN2{}
 		nd.Assert(!nd.Catch(func() { reg.RegisterSingleton(a) }), "C07: the first component of a name is accepted")
 		nd.Assert(nd.Catch(func() { reg.RegisterSingleton(b) }), "C07: a different component under an already registered name is rejected")
-		nd.Assert(!nd.Catch(func() { reg.RegisterSingleton(a) }), "C07: registering the same component again is accepted")
 		nd.Cover("stateless components sharing a name")
 		return
 	case 2:
@@ -1015,4 +1014,41 @@ func VerifC06SameName() {
 	check(getA(), vImplI1)
 	check(getB(), implI2)
 	nd.Cover("two same-named interface types")
+}
+
+// C07 with SYMBOLIC names: two components of one type with arbitrary one-byte custom names,
+// an arbitrary one-byte requested name: the point receives a component iff its name equals
+// the requested name byte for byte (the solver decides every name comparison).
+func VerifC07Symbolic() {
+	r := newRHOrder(false)
+	n1, n2, req := nd.Bytes(1), nd.Bytes(1), nd.Bytes(1)
+	nd.Assume(n1 != n2 && n1 != "holder" && n2 != "holder")
+	p1, p2 := &vPA{vAttr{id: 1, nm: n1}}, &vPA{vAttr{id: 2, nm: n2}}
+	h := &vHPtr{nm: "holder"}
+	hm := r.register(h, "holder")
+	r.register(p1, n1)
+	r.register(p2, n2)
+	optional := nd.Bool()
+	for _, pr := range hm.GetComponentProperties() {
+		pr.TagVal = req
+		if optional {
+			pr.SetArg(component_definition.ArgRequired, "false")
+		}
+	}
+	_, err := r.f.doGetComponent("holder")
+	switch {
+	case req == n1:
+		nd.Cover("first name requested")
+		nd.Assert(err == nil && h.F == p1, "C07: the point receives exactly the component registered under the requested name")
+	case req == n2:
+		nd.Cover("second name requested")
+		nd.Assert(err == nil && h.F == p2, "C07: the point receives exactly the component registered under the requested name")
+	default:
+		nd.Cover("no such name")
+		if optional {
+			nd.Assert(err == nil && h.F == nil, "C07: an optional by-name point without a component of that name is left untouched")
+		} else {
+			nd.Assert(err != nil, "C07: a required by-name point without a component of that name is reported as an error")
+		}
+	}
 }
